@@ -11,7 +11,8 @@ passed BY VALUE as the payload has not, and `filterValue` silently leaves such s
 finding F6c).  A value held directly in an `interface{}` *field* is filtered on a settable copy that
 is stored back in the field (fix 663fde8) — whenever the struct that has the field is addressable.
 
-Not in this model: Taggable values, wrapperspb / structpb values, IgnoreTypes, arrays, channels.
+Not in this model: Taggable values (M7g has Taggable map payloads), wrapperspb / structpb values,
+IgnoreTypes, arrays, channels.
 -/
 namespace Evl.EncryptTree
 open Evl.Encrypt
@@ -82,7 +83,7 @@ def filtV (c : Ctx) (t : TagInfo) (addr : Bool) : V → Option V
   | .ptr v => (filtV c t true v).map .ptr              -- what a pointer points at is addressable
   | .iface v => (filtIface c t addr v).map .iface
   | .struct fs => (filtFields c addr fs).map .struct
-  | .slice vs => (filtElems c vs).map .slice
+  | .slice vs => (filtElems c t vs).map .slice
   | .map es => (filtEntries c es).map .map
 /-- an interface-typed field: `field = v.Field(i).Elem()`; a pointer inside is followed once more; a
 value held directly is filtered on a settable copy, stored back when the field itself is settable
@@ -92,7 +93,7 @@ def filtIface (c : Ctx) (t : TagInfo) (addr : Bool) : V → Option V
   | .leaf l => (filterStr c (action t) addr l).map .leaf
   | .struct fs => (filtFields c addr fs).map .struct
   | .leaves ls => (filterStrs c t ls).map .leaves           -- slice elements stay settable
-  | .slice vs => (filtElems c vs).map .slice
+  | .slice vs => (filtElems c t vs).map .slice
   | .map es => (filtEntries c es).map .map
   | .nilPtr => some .nilPtr
   | .iface v => some (.iface v)
@@ -106,31 +107,43 @@ def filtFields (c : Ctx) (addr : Bool) : Items → Option Items
       | _, _ => none
   | .cons .elem v rest => (filtFields c addr rest).map (.cons .elem v)        -- not a field: not produced by the generator
   | .cons (.key k) v rest => (filtFields c addr rest).map (.cons (.key k) v)
-/-- the element loops (Process's, filterField's, filterSliceElements) -/
-def filtElems (c : Ctx) : Items → Option Items
+/-- the element loops (Process's, filterField's, filterSliceElements); `t`: the tag strings found in
+the slice are filtered under (the field's tag; secret for a payload slice; unclassified in a map) -/
+def filtElems (c : Ctx) (t : TagInfo) : Items → Option Items
   | .nil => some .nil
   | .cons h v rest =>
-    match filtElem c v, filtElems c rest with
+    match filtElem c t v, filtElems c t rest with
     | some v', some rs => some (.cons h v' rs)
     | _, _ => none
-/-- one element: pointers are followed (nil skipped), maps tracked, structs filtered (slice elements
-are addressable), inner slices walked; anything else is left alone -/
-def filtElem (c : Ctx) : V → Option V
-  | .ptr w => (filtElemTarget c w).map .ptr
+/-- one element: interfaces and pointers are looked through (nil skipped), maps tracked, structs
+filtered (slice elements are addressable), inner slices walked, strings filtered under `t` -/
+def filtElem (c : Ctx) (t : TagInfo) : V → Option V
+  | .ptr w => (filtElemTarget c t w).map .ptr
   | .struct fs => (filtFields c true fs).map .struct
   | .map es => (filtEntries c es).map .map
-  | .slice vs => (filtElems c vs).map .slice
-  | .leaf l => some (.leaf l)
-  | .leaves ls => some (.leaves ls)
+  | .slice vs => (filtElems c t vs).map .slice
+  | .leaf l => (filterStr c (action t) true l).map .leaf
+  | .leaves ls => (filterStrs c t ls).map .leaves
+  | .nilPtr => some .nilPtr
+  | .iface v => (filtElemIface c t v).map .iface
+/-- what an interface element holds: a value held directly is filtered on a settable copy that is
+stored back in the element (fix 0954877) -/
+def filtElemIface (c : Ctx) (t : TagInfo) : V → Option V
+  | .ptr w => (filtElemTarget c t w).map .ptr
+  | .struct fs => (filtFields c true fs).map .struct
+  | .map es => (filtEntries c es).map .map
+  | .slice vs => (filtElems c t vs).map .slice
+  | .leaf l => (filterStr c (action t) true l).map .leaf
+  | .leaves ls => (filterStrs c t ls).map .leaves
   | .nilPtr => some .nilPtr
   | .iface v => some (.iface v)
 /-- what a pointer element points at -/
-def filtElemTarget (c : Ctx) : V → Option V
+def filtElemTarget (c : Ctx) (t : TagInfo) : V → Option V
   | .struct fs => (filtFields c true fs).map .struct
   | .map es => (filtEntries c es).map .map
-  | .slice vs => (filtElems c vs).map .slice
-  | .leaf l => some (.leaf l)
-  | .leaves ls => some (.leaves ls)
+  | .slice vs => (filtElems c t vs).map .slice
+  | .leaf l => (filterStr c (action t) true l).map .leaf
+  | .leaves ls => (filterStrs c t ls).map .leaves
   | .nilPtr => some .nilPtr
   | .ptr v => some (.ptr v)
   | .iface v => some (.iface v)
@@ -168,35 +181,35 @@ def filtMapSlice (c : Ctx) : Items → Option Items
     match filtMapElem c v, filtMapSlice c rest with
     | some v', some rs => some (.cons h v' rs)
     | _, _ => none
-/-- its elements are looked through interface and pointer; structs are filtered in place (a struct
-held by value in an interface element is not addressable) -/
+/-- its elements are looked through interface and pointer; structs are filtered in place (one held
+directly by an interface element on a settable copy), strings are unclassified data: redacted -/
 def filtMapElem (c : Ctx) : V → Option V
   | .struct fs => (filtFields c true fs).map .struct
   | .ptr w => (filtMapElemPtr c w).map .ptr
   | .iface w => (filtMapElemIface c w).map .iface
   | .map es => (filtEntries c es).map .map
-  | .slice vs => (filtElems c vs).map .slice
-  | .leaf l => some (.leaf l)
-  | .leaves ls => some (.leaves ls)
+  | .slice vs => (filtElems c mapTag vs).map .slice
+  | .leaf l => (filterStr c (action mapTag) true l).map .leaf
+  | .leaves ls => (filterStrs c mapTag ls).map .leaves
   | .nilPtr => some .nilPtr
 def filtMapElemPtr (c : Ctx) : V → Option V
   | .struct fs => (filtFields c true fs).map .struct
-  | .leaf l => some (.leaf l)
-  | .leaves ls => some (.leaves ls)
+  | .leaf l => (filterStr c (action mapTag) true l).map .leaf
+  | .leaves ls => (filterStrs c mapTag ls).map .leaves
+  | .slice vs => (filtElems c mapTag vs).map .slice
+  | .map es => (filtEntries c es).map .map
   | .nilPtr => some .nilPtr
   | .ptr v => some (.ptr v)
   | .iface v => some (.iface v)
-  | .slice vs => some (.slice vs)
-  | .map es => some (.map es)
 def filtMapElemIface (c : Ctx) : V → Option V
-  | .struct fs => (filtFields c false fs).map .struct
+  | .struct fs => (filtFields c true fs).map .struct
   | .ptr w => (filtMapElemPtr c w).map .ptr
   | .map es => (filtEntries c es).map .map
-  | .leaf l => some (.leaf l)
-  | .leaves ls => some (.leaves ls)
+  | .leaf l => (filterStr c (action mapTag) true l).map .leaf
+  | .leaves ls => (filterStrs c mapTag ls).map .leaves
+  | .slice vs => (filtElems c mapTag vs).map .slice
   | .nilPtr => some .nilPtr
   | .iface v => some (.iface v)
-  | .slice vs => some (.slice vs)
 end
 
 /-- the tag the payload itself is filtered under when it is a string / []byte / []string: secret -/
@@ -207,7 +220,7 @@ def filtPayloadTarget (c : Ctx) : V → Option V
   | .leaf l => (filterStr c (action (payloadTag c)) true l).map .leaf
   | .leaves ls => (filterStrs c (payloadTag c) ls).map .leaves
   | .struct fs => (filtFields c true fs).map .struct
-  | .slice vs => (filtElems c vs).map .slice
+  | .slice vs => (filtElems c (payloadTag c) vs).map .slice
   | .map es => (filtEntries c es).map .map
   | .nilPtr => some .nilPtr
   | .ptr v => some (.ptr v)
@@ -220,7 +233,7 @@ def filtPayload (c : Ctx) : V → Option V
   | .leaf l => if (leafPlain l).isEmpty then some (.leaf l) else none
   | .leaves ls => (filterStrs c (payloadTag c) ls).map .leaves
   | .struct fs => (filtFields c false fs).map .struct
-  | .slice vs => (filtElems c vs).map .slice
+  | .slice vs => (filtElems c (payloadTag c) vs).map .slice
   | .map es => (filtEntries c es).map .map
   | .nilPtr => some .nilPtr
   | .iface v => some (.iface v)
